@@ -33,7 +33,14 @@ SNAPSHOT = dict(
     gen_make_zombie_guarded=True,
     gen_gil_ensure_incr_unlocked=True, gen_gil_ensure_incr_locked=True, gen_gil_release_plain=True,
     gen_detach=["PLoad VP VOb FPrev", "PLoad VN VOb FNext", "PStore VP FNext VN", "PStore VN FPrev VP",
-                "PStoreNull VOb FPrev", "PStoreNull VOb FNext"])
+                "PStoreNull VOb FPrev", "PStoreNull VOb FNext"],
+    gen_register_sweeps_first=True, gen_register_sets_local=True, gen_register_incr=True,
+    gen_shutdown_locked=["XS (XLoadLocal XCan XTls)",
+                         "XIfNonNull XCan [XLoadLocal XCan XTls; XStoreTlsNull XCan; XLoadLocal XCan XTls; XMakeZombie XCan]"],
+    gen_dealloc_locked=["XIfLinked XOb [XDetach XOb]", "XS (XLoadTls XTls XOb)",
+                        "XIfNonNull XTls [XLoadTls XTls XOb; XStoreLocalNull XTls]"],
+    gen_sweep_locked=["XS (XLoadHeadNext XOb)",
+                      "XIfNotHead XOb [XLoadTstate XTstate XOb; XDetach XOb; XFatalIfNull XTstate]"])
 
 
 def _fn_body(text, name):
@@ -81,6 +88,184 @@ def _pointer_stmt(st):
     raise U("statement outside the pointer subset: %r" % st)
 
 
+# ---- the locked regions (between TLS_ZOM_LOCK() and TLS_ZOM_UNLOCK()) as xstmt programs of C36/Ptr.v
+XV = {"ob": "XOb", "tls": "XTls", "tstate": "XTstate"}
+
+
+def _xv(v):
+    if v not in XV:
+        raise U("locked region: unknown variable %r" % v)
+    return XV[v]
+
+
+def _match_close(text, i, op, cl):
+    depth = 0
+    for j in range(i, len(text)):
+        if text[j] == op:
+            depth += 1
+        elif text[j] == cl:
+            depth -= 1
+            if depth == 0:
+                return j
+    raise U("locked region: unbalanced %s" % op)
+
+
+def _parse_block(text):
+    """[('s', stmt) | ('if', cond, [sub-statements])] of a brace-free-at-top-level statement sequence"""
+    out, i = [], 0
+    text = text.strip()
+    while i < len(text):
+        if text[i].isspace():
+            i += 1
+            continue
+        m = re.match(r"if\s*\(", text[i:])
+        if m:
+            j = _match_close(text, i + m.end() - 1, "(", ")")
+            cond = " ".join(text[i + m.end():j].split())
+            k = j + 1
+            while text[k].isspace():
+                k += 1
+            if text[k] == "{":
+                e = _match_close(text, k, "{", "}")
+                body = _parse_block(text[k + 1:e])
+                i = e + 1
+            else:
+                e = text.index(";", k)
+                body = _parse_block(text[k:e + 1])
+                i = e + 1
+            m2 = re.match(r"\s*else\s*\{\s*\}", text[i:])
+            if m2:
+                i += m2.end()
+            elif re.match(r"\s*else\b", text[i:]):
+                raise U("locked region: non-empty else branch")
+            out.append(("if", cond, body))
+            continue
+        e = text.index(";", i) if ";" in text[i:] else None
+        if e is None:
+            raise U("locked region: trailing text %r" % text[i:])
+        st = " ".join(text[i:e].split())
+        if st:
+            out.append(("s", st))
+        i = e + 1
+    return out
+
+
+def _xsimple(st):
+    """C statement -> list of xsimple constructors"""
+    if re.fullmatch(r"assert\(.*\)", st):
+        return []
+    m = re.fullmatch(r"(\w+)->local_thread_canary->tls = NULL", st)
+    if m:
+        return ["XLoadLocal XCan %s" % _xv(m.group(1)), "XStoreTlsNull XCan"]
+    m = re.fullmatch(r"thread_canary_make_zombie\((\w+)->local_thread_canary\)", st)
+    if m:
+        return ["XLoadLocal XCan %s" % _xv(m.group(1)), "XMakeZombie XCan"]
+    m = re.fullmatch(r"_thread_canary_detach_with_lock\((\w+)\)", st)
+    if m:
+        return ["XDetach %s" % _xv(m.group(1))]
+    m = re.fullmatch(r"(\w+)->tls->local_thread_canary = NULL", st)
+    if m:
+        return ["XLoadTls XTls %s" % _xv(m.group(1)), "XStoreLocalNull XTls"]
+    m = re.fullmatch(r"(\w+) = cffi_zombie_head\.zombie_next", st)
+    if m:
+        return ["XLoadHeadNext %s" % _xv(m.group(1))]
+    m = re.fullmatch(r"(\w+) = (\w+)->tstate", st)
+    if m:
+        return ["XLoadTstate %s %s" % (_xv(m.group(1)), _xv(m.group(2)))]
+    raise U("locked region: statement outside the subset: %r" % st)
+
+
+def _xbody(items):
+    out = []
+    for it in items:
+        if it[0] == "s":
+            out += _xsimple(it[1])
+            continue
+        m = re.fullmatch(r"(\w+) == NULL", it[1])
+        if m and len(it[2]) == 1 and it[2][0][0] == "s" and re.fullmatch(r"Py_FatalError\(.*\)", it[2][0][1]):
+            out.append("XFatalIfNull %s" % _xv(m.group(1)))
+            continue
+        raise U("locked region: nested if %r" % (it[1],))
+    return out
+
+
+def _xprogram(text):
+    prog = []
+    for it in _parse_block(text):
+        if it[0] == "s":
+            prog += ["XS (%s)" % x for x in _xsimple(it[1])]
+            continue
+        cond, body = it[1], "[" + "; ".join(_xbody(it[2])) + "]"
+        m = re.fullmatch(r"(\w+)->local_thread_canary != NULL", cond)
+        if m:
+            prog += ["XS (XLoadLocal XCan %s)" % _xv(m.group(1)), "XIfNonNull XCan " + body]
+            continue
+        m = re.fullmatch(r"(\w+)->zombie_next != NULL", cond)
+        if m:
+            prog.append("XIfLinked %s %s" % (_xv(m.group(1)), body))
+            continue
+        m = re.fullmatch(r"(\w+)->tls != NULL", cond)
+        if m:
+            prog += ["XS (XLoadTls XTls %s)" % _xv(m.group(1)), "XIfNonNull XTls " + body]
+            continue
+        m = re.fullmatch(r"(\w+) != &cffi_zombie_head", cond)
+        if m:
+            prog.append("XIfNotHead %s %s" % (_xv(m.group(1)), body))
+            continue
+        raise U("locked region: condition outside the subset: %r" % cond)
+    return prog
+
+
+def _locked_region(body, what):
+    if body.count("TLS_ZOM_LOCK();") != 1 or body.count("TLS_ZOM_UNLOCK();") != 1:
+        raise U("%s: expected exactly one TLS_ZOM_LOCK()/TLS_ZOM_UNLOCK() pair" % what)
+    a, b = body.index("TLS_ZOM_LOCK();"), body.index("TLS_ZOM_UNLOCK();")
+    if a > b:
+        raise U("%s: unlock before lock" % what)
+    return body[:a], body[a + len("TLS_ZOM_LOCK();"):b], body[b + len("TLS_ZOM_UNLOCK();"):]
+
+
+def extract_locked_regions(text):
+    out = {}
+    b = _plain_body(text, r"static\s+void\s+cffi_thread_shutdown\s*\(\s*void\s*\*\s*p\s*\)\s*\{")
+    pre, reg, post = _locked_region(b, "cffi_thread_shutdown")
+    if " ".join(pre.split()) != "struct cffi_tls_s *tls = (struct cffi_tls_s *)p;" or " ".join(post.split()) != "free(tls);":
+        raise U("cffi_thread_shutdown: statements outside the locked region changed")
+    out["gen_shutdown_locked"] = _xprogram(reg)
+    b = _fn_body(text, "thread_canary_dealloc")
+    pre, reg, post = _locked_region(b, "thread_canary_dealloc")
+    if pre.strip() or " ".join(post.split()) != "PyObject_Del((PyObject *)ob);":
+        raise U("thread_canary_dealloc: statements outside the locked region changed")
+    out["gen_dealloc_locked"] = _xprogram(reg)
+    b = _plain_body(text, r"static\s+void\s+thread_canary_free_zombies\s*\(\s*void\s*\)\s*\{")
+    pre, reg, post = _locked_region(b, "thread_canary_free_zombies")
+    pre, post = " ".join(pre.split()), " ".join(post.split())
+    if not pre.endswith("while (1) { ThreadCanaryObj *ob; PyThreadState *tstate = NULL;"):
+        raise U("thread_canary_free_zombies: loop header / `tstate = NULL` initialiser changed")
+    if not re.fullmatch(r"if \(tstate == NULL\) break; PyThreadState_Clear\(tstate\); (#if PY_VERSION_HEX >= 0x030C0000 "
+                        r"tstate->_status\.bound_gilstate = 0; #endif )?PyThreadState_Delete\(tstate\); \} ?", post):
+        raise U("thread_canary_free_zombies: statements after the locked region changed: %r" % post)
+    out["gen_sweep_locked"] = _xprogram(reg)
+    # thread_canary_register: sweep first; on the success path (after the dict store and its error check)
+    # tls->local_thread_canary = canary and exactly one gilstate_counter++
+    b = " ".join(_plain_body(text, r"static\s+void\s+thread_canary_register\s*\(\s*PyThreadState\s*\*\s*tstate\s*\)\s*\{").split())
+    sts = [x.strip() for x in b.split(";")]
+    first = [x for x in sts if x and not re.fullmatch(r"(ThreadCanaryObj|PyObject|struct cffi_tls_s|int) \*?\w+", x)]
+    out["gen_register_sweeps_first"] = bool(first) and first[0] == "thread_canary_free_zombies()"
+    m = re.search(r"err = PyDict_SetItemString\(tdict, \"cffi\.thread\.canary\", \(PyObject \*\)canary\); "
+                  r"Py_DECREF\(canary\); if \(err < 0\) goto ignore_error; (.*?)return; ignore_error:", b)
+    if not m:
+        raise U("thread_canary_register: success path not recognised")
+    succ = [x.strip() for x in m.group(1).split(";") if x.strip() and not x.strip().startswith("assert(")]
+    out["gen_register_sets_local"] = "tls->local_thread_canary = canary" in succ
+    out["gen_register_incr"] = (succ.count("tstate->gilstate_counter++") == 1
+                                and b.count("gilstate_counter") == 1)
+    extra = [x for x in succ if x not in ("tls->local_thread_canary = canary", "tstate->gilstate_counter++")]
+    if extra:
+        raise U("thread_canary_register: unexpected statement on the success path: %r" % extra[0])
+    return out
+
+
 def extract_pointer_code():
     text = open(os.path.join(vlib.REPO, "src", "c", "misc_thread_common.h")).read()
     text = re.sub(r"/\*.*?\*/", " ", text, flags=re.S)
@@ -122,6 +307,7 @@ def extract_pointer_code():
     out["gen_gil_ensure_incr_locked"] = (cnt(pre) + cnt(lck) == 1) and "PyEval_RestoreThread" not in lck
     r = " ".join(_plain_body(text, r"static\s+void\s+gil_release\s*\(\s*PyGILState_STATE\s+oldstate\s*\)\s*\{").split())
     out["gen_gil_release_plain"] = (r == "PyGILState_Release(oldstate);")
+    out.update(extract_locked_regions(text))
     return out
 
 
@@ -143,23 +329,39 @@ def _plain_body(text, header):
 
 
 def gen_text(f, origin):
+    b = lambda k: "true" if f[k] else "false"
     return ("(* C36/Gen.v — %s.  Do not edit: rewritten by tools/props/c36.py regen() on every run.\n"
             "   Straight-line pointer code of thread_canary_make_zombie (after its guard) and\n"
-            "   _thread_canary_detach_with_lock, src/c/misc_thread_common.h. *)\n"
-            "From Coq Require Import List.\nImport ListNotations.\nFrom Cffi Require Import C36.Model.\n"
+            "   _thread_canary_detach_with_lock; the regions between TLS_ZOM_LOCK() and TLS_ZOM_UNLOCK() of\n"
+            "   cffi_thread_shutdown, thread_canary_dealloc and thread_canary_free_zombies; order/counter facts of\n"
+            "   gil_ensure, gil_release and thread_canary_register.  src/c/misc_thread_common.h. *)\n"
+            "From Coq Require Import List.\nImport ListNotations.\nFrom Cffi Require Import C36.Ptr.\n"
             "Definition gen_make_zombie : list pstmt :=\n  [%s].\n"
             "Definition gen_make_zombie_guarded : bool := %s.\n"
             "Definition gen_detach : list pstmt :=\n  [%s].\n"
             "(* gil_ensure with an existing thread state: ts->gilstate_counter++ happens exactly once on the path that\n"
             "   returns PyGILState_UNLOCKED (after/before PyEval_RestoreThread) resp. PyGILState_LOCKED (ts already\n"
-            "   current: the callback was entered with the GIL held); gil_release is PyGILState_Release(oldstate) *)\n"
+            "   current: the callback was entered with the GIL held); gil_release is PyGILState_Release(oldstate).\n"
+            "   Consulted by C36.Model.step_fn (EvCb / EvCbNested / EvCbEnd / EvCbNestedEnd). *)\n"
             "Definition gen_gil_ensure_incr_unlocked : bool := %s.\n"
             "Definition gen_gil_ensure_incr_locked : bool := %s.\n"
-            "Definition gen_gil_release_plain : bool := %s.\n") % (
-                origin, "; ".join(f["gen_make_zombie"]), "true" if f["gen_make_zombie_guarded"] else "false",
-                "; ".join(f["gen_detach"]), "true" if f["gen_gil_ensure_incr_unlocked"] else "false",
-                "true" if f["gen_gil_ensure_incr_locked"] else "false",
-                "true" if f["gen_gil_release_plain"] else "false")
+            "Definition gen_gil_release_plain : bool := %s.\n"
+            "(* thread_canary_register: thread_canary_free_zombies() is its first statement; after the dict store\n"
+            "   succeeded: tls->local_thread_canary = canary; exactly one tstate->gilstate_counter++.\n"
+            "   Consulted by C36.Model.step_fn (EvCb first callback / EvMakeCanary). *)\n"
+            "Definition gen_register_sweeps_first : bool := %s.\n"
+            "Definition gen_register_sets_local : bool := %s.\n"
+            "Definition gen_register_incr : bool := %s.\n"
+            "(* the locked regions, as programs of C36/Ptr.v (specified in C36/Proofs3.v) *)\n"
+            "Definition gen_shutdown_locked : list xstmt :=\n  [%s].\n"
+            "Definition gen_dealloc_locked : list xstmt :=\n  [%s].\n"
+            "Definition gen_sweep_locked : list xstmt :=\n  [%s].\n") % (
+                origin, "; ".join(f["gen_make_zombie"]), b("gen_make_zombie_guarded"),
+                "; ".join(f["gen_detach"]), b("gen_gil_ensure_incr_unlocked"),
+                b("gen_gil_ensure_incr_locked"), b("gen_gil_release_plain"),
+                b("gen_register_sweeps_first"), b("gen_register_sets_local"), b("gen_register_incr"),
+                ";\n   ".join(f["gen_shutdown_locked"]), ";\n   ".join(f["gen_dealloc_locked"]),
+                ";\n   ".join(f["gen_sweep_locked"]))
 
 
 def regen(ctx):
